@@ -17,7 +17,7 @@ func propC02() Property {
 		ID: "C02",
 		Explanation: "Lockset and shape rules over every function of the module. R1: reading the next outbound number that is stamped into tag 34, persisting/incrementing it, every store to the send queue and every send on the connection channel execute with session.sendMutex held (entry requirements propagated to all callers, roots must satisfy them), and numbering→enqueue happens in ONE critical section. " +
 			"R2: the stamped number is the number read (re-read after a store reset), the persisted number/bytes are the stamped number and the built bytes, the persist error is returned, persist does exactly one of save+incr / incr. R3: bytes are enqueued iff numbering+persist succeeded. R4: the queue is only appended to, truncated to empty, or cut at the index whose send failed; what is sent is the queue's own element in iteration order. " +
-			"R5: first-time numbering holds resendMutex(R) (or is the Logon/Logout drop-and-send confined to the session goroutine), the replay loop holds resendMutex(W) across IterateMessages and across whatever the replay function sends after it (the closing gap fill), resendMutex is never taken while sendMutex is held and never re-taken inside the W region. R6: the application-side send API only queues: it reaches no channel send and does not read the session state. R7: where a function both empties the send queue and resets the store, the two happen under one acquisition of sendMutex with no release in between. R8 (shared with C16): in every store, save-and-increment saves first and increments only on the nil-error edge, or is one transaction — so the bytes are retrievable under n before n counts as used. R9 (shared with C17): the file store appends at the end of the body file and indexes that offset, so the bytes stored under earlier numbers stay retrievable after a reopen.",
+			"R5: first-time numbering holds resendMutex(R) (or is the Logon/Logout drop-and-send confined to the session goroutine), the replay loop holds resendMutex(W) across IterateMessages and across whatever the replay function sends after it (the closing gap fill), resendMutex is never taken while sendMutex is held and never re-taken inside the W region. R6: the application-side send API only queues: it reaches no channel send and does not read the session state. R7: where a function both empties the send queue and resets the store, the two happen under one acquisition of sendMutex with no release in between. R8 (shared with C16): in every store, save-and-increment saves first and increments only on the nil-error edge, or is one transaction — so the bytes are retrievable under n before n counts as used. R9 (shared with C17): the file store appends at the end of the body file and indexes that offset, so the bytes stored under earlier numbers stay retrievable after a reopen. R10 (shared with C17): the SQL store updates its cached outbound counter only after Commit returned nil.",
 		NotDecided: "atomicity of the store implementation itself (C16/C17), fairness (that every number is eventually transmitted), data races on other fields. Observations (not verdicts): store.Reset in the Logon path runs without sendMutex; exported ResetSession touches state from a foreign goroutine.",
 		Rules: []RuleDef{
 			{ID: "C02-R1", Desc: "number→stamp→persist→enqueue→send under sendMutex, one section", Min: 8, Run: c02R1},
@@ -29,6 +29,7 @@ func propC02() Property {
 			{ID: "C02-R7", Desc: "queue drop and store reset are one critical section", Min: 1, Run: c02R7},
 			{ID: "C02-R8", Desc: "every store: save-and-increment = save (nil) then increment, or one transaction (= C16-R6)", Min: 4, Run: c16R6},
 			{ID: "C02-R9", Desc: "file store: the bytes under n stay retrievable — appended at the end, indexed where written (= C17-R2)", Min: 3, Run: c17R2},
+			{ID: "C02-R10", Desc: "sql: cached counter updated only after Commit returned nil (= C17-R4)", Min: 4, Run: c17R4},
 		},
 	}
 }
